@@ -1841,6 +1841,25 @@ impl<'a> ExprGen<'a> {
 // ------------------------------------------------------------------------------------ visitors
 
 impl Expr {
+    /// `COALESCE(a, b, c)` as the engine plans it (`expr_simplifier.rs` rewrites it before physical
+    /// planning; `create_physical_expr` refuses a bare coalesce):
+    /// `CASE WHEN a IS NOT NULL THEN a WHEN b IS NOT NULL THEN b ELSE c END`
+    pub fn lower_coalesce(&self) -> Expr {
+        self.map(&mut |e| match e {
+            Expr::Coalesce(mut args) if !args.is_empty() => {
+                let last = args.pop().unwrap();
+                if args.is_empty() {
+                    return last;
+                }
+                let whens = args.into_iter().map(|a| (Expr::Is(IsKind::Null, true, Box::new(a.clone())), a)).collect();
+                Expr::Case(None, whens, Some(Box::new(last)))
+            }
+            e => e,
+        })
+    }
+}
+
+impl Expr {
     /// bottom-up rewrite of every sub-expression (sub-queries included)
     pub fn map(&self, f: &mut dyn FnMut(Expr) -> Expr) -> Expr {
         let b = |e: &Expr, f: &mut dyn FnMut(Expr) -> Expr| Box::new(e.map(f));
